@@ -18,7 +18,7 @@ import vp
 
 LEVEL = "model_checking"
 SPECDIRS = ("c17",)
-NSTMT, NAUX = 12, 10          # sizes of the statement pools in harness/suite_c17.go
+NSTMT, NAUX = 13, 10          # sizes of the statement pools in harness/suite_c17.go
 MAX_CRASH_RESTARTS = 5
 
 
